@@ -1,7 +1,9 @@
 #!/bin/sh
-# Build the fact extractor and warm the dependency caches (offline).
+# Build the fact extractor and warm the caches (offline).
 set -e
 cd "$(dirname "$0")/.."
 export CARGO_NET_OFFLINE=true
 (cd driver && cargo build --release --offline)
-python3 rules/extract.py default
+python3 rules/extract.py default dates
+cp /repo/Cargo.lock witness/Cargo.lock 2>/dev/null || true
+(cd witness && CARGO_TARGET_DIR="$(pwd)/../.cache/target-witness" cargo +nightly test --doc --offline >/dev/null 2>&1 || true)
